@@ -1,4 +1,5 @@
 import AkVerif.Lemmas.ColorsConfReentrant
+import AkVerif.Lemmas.ColorsConfMulti
 /-!
 # C14 — syntax colors resolve by inheritance, independent of registration order
 
@@ -613,6 +614,50 @@ theorem setGlobal_reentrant_raises (classes : List ClassDef) (nc : Bool) (cfg : 
     | ok g' =>
       exact setGlobal_reentrant hi.good.conf.good hK hP hKp hKd hPp hPd hkeys hKs hPs hnew hit g' h2
 
+/-! ### several configurations taking turns as the global one
+
+`runM` is what the driver executes: configurations are created (`new`), operated on (`on i`), made the global
+one (`setGlobal i` *replaces* the global index), synced palettes are created from the current global
+configuration (`syn`) and read (`sget`). -/
+
+/-- a case with a single configuration is a case `runAll` of the theorems above -/
+theorem single_conf_same (classes : List ClassDef) (nc : Bool) (cfg : Cfg) (ops : List GOp) :
+    runM classes ⟨[], [], none, []⟩ (.new nc cfg :: ops.map liftOp) = mapE toM (runAll classes nc cfg ops) := by
+  unfold runM runAll
+  simp only [stepM]
+  cases h1 : newConf nc cfg with
+  | error e => rfl
+  | ok c =>
+    simp only
+    obtain ⟨hgc, _, _⟩ := newConf_good (classes := classes) h1
+    have hi0 : GInv classes ⟨⟨c, []⟩, false, []⟩ :=
+      ⟨⟨hgc, fun k s hk => by simp [cacheGet] at hk⟩, fun hf => by cases hf⟩
+    exact runM_single ops ⟨⟨c, []⟩, false, []⟩ hi0
+
+/-- **A registration into a configuration that is not the current global one is inert** for everything
+global: the synced palettes keep their values, the global index stays, no other configuration changes —
+also when that configuration *was* the global one earlier. -/
+theorem non_global_registration_inert (classes : List ClassDef) (m m' : MWorld) (i : Nat) (o : Op) (r : Option Snap)
+    (h : stepM classes m (.on i o) = .ok (m', r)) (hng : m.glob ≠ some i) :
+    m'.synced = m.synced ∧ m'.glob = m.glob ∧ ∀ j, j ≠ i → m'.confs[j]? = m.confs[j]? :=
+  stepM_on_inert h hng
+
+/-- **Synced palettes show the CURRENT global configuration**: after any case — configurations created,
+replaced as the global one, registered into in any order — every synced palette maps each accessor to what
+`get_color` of the configuration that is the global one *now* answers, i.e. to the formatter its final set of
+descriptions determines; and every configuration of the case resolves declaratively. -/
+theorem synced_follow_current_global (classes : List ClassDef) (ops : List MOp) (m : MWorld)
+    (h : runM classes ⟨[], [], none, []⟩ ops = .ok m) :
+    (∀ (i : Nat) (c : Conf), m.confs[i]? = some c → ∀ id, SpecColor c.noColor (descOf c.map) id (getColor c id)) ∧
+    (∀ (j : Nat) (c : Conf), m.glob = some j → m.confs[j]? = some c → ∀ k s, cacheGet m.synced k = some s →
+      ∃ cd, classes[k]? = some cd ∧ s = snapOf c cd.accessors ∧
+        ∀ a ∈ cd.accessors, SpecColor c.noColor (descOf c.map) a.2 (getColor c a.2)) := by
+  have hi := runM_inv ops _ m (minv_empty classes) h
+  refine ⟨fun i c hc id => getColor_spec (hi.confs i c hc).good id, ?_⟩
+  intro j c hg hc k s hk
+  obtain ⟨cd, hcd, hs⟩ := hi.fresh j c hg hc k s hk
+  exact ⟨cd, hcd, hs, fun a _ => getColor_spec (hi.confs j c hc).good a.2⟩
+
 /-! Non-vacuity: concrete histories evaluated by the kernel.  `B` refers to `A` (registered later) and
 selects the terminal default foreground with `-`; `C` refers to `B`.  Before `A` is known both are
 uncoloured, afterwards `B` = ESC[44;1m (background and bold inherited, foreground default) and
@@ -737,5 +782,22 @@ example : syncedAfter (runAll pendClasses false pendCfg
       [.setGlobal, .syn 0, .op (.add [("DEMO.X".toList, "DEMO.BASE:bold".toList)]),
        .op (.add [("DEMO.BASE".toList, "GREEN".toList)])]) 0 =
     some [(['x'], "DEMO.X".toList, Char.ofNat 27 :: "[32;1m".toList)] := by decide +kernel
+
+/-- seed m10's shape: configuration 0 (`DEMO.X` RED) is the global one, then configuration 1 (`DEMO.X`
+BLUE, bold) replaces it; a registration into configuration 0 and a palette obtained from it afterwards leave the
+synced palette on configuration 1's colours -/
+def twoOps : List MOp :=
+  [.new false (.dict (.cons "DEMO.X".toList (.str "RED".toList) .nil)),
+   .new false (.dict (.cons "DEMO.X".toList (.str "BLUE:bold".toList) .nil)),
+   .setGlobal 0, .syn 0, .setGlobal 1,
+   .on 0 (.add [("FRESH".toList, "GREEN".toList)]), .on 0 (.pal 0 false)]
+def syncedOfM (r : Except Err MWorld) (k : Nat) : Option Snap :=
+  match r with
+  | .ok m => cacheGet m.synced k
+  | .error _ => none
+example : syncedOfM (runM pendClasses ⟨[], [], none, []⟩ (twoOps.take 4)) 0 =
+    some [(['x'], "DEMO.X".toList, Char.ofNat 27 :: "[31m".toList)] := by decide +kernel
+example : syncedOfM (runM pendClasses ⟨[], [], none, []⟩ twoOps) 0 =
+    some [(['x'], "DEMO.X".toList, Char.ofNat 27 :: "[34;1m".toList)] := by decide +kernel
 
 end C14
